@@ -139,6 +139,18 @@ CAPTURE_CASES = [
 ]
 
 
+def subquery_capture_cases(pop):
+    """two alternatives that capture differently named variables in the same sub-query (a stream with both tokens): a value
+    captured for one alternative must not serve the other"""
+    both = [s["id"] for s in pop if {("c", "AA"), ("c", "CC")} <= {(e["d"], e["t"]) for e in s["ev"]}]
+    if not both:
+        return []
+    n = both[0]
+    a1 = _atom("sub_cap", n=n, tok="CC", name="a", p=81)
+    a2 = _atom("sub_cap", n=n, tok="AA", name="b", p=80)
+    return [{"op": "or", "x": a1, "y": a2}, {"op": "or", "x": a2, "y": a1}, a1]
+
+
 def shape(ast):
     """narrow signature of a query: operators and atom kinds"""
     if ast["op"] == "atom":
@@ -175,8 +187,8 @@ def run(ctx):
     other = [a for a in exh if id(a) not in d2ids]
     if ctx.quick():
         depth2 = rng.sample(depth2, min(len(depth2), 900))
-    cases = other + depth2 + rnd + (CAPTURE_CASES if ctx.pid == "C02" else [])
     pop = make_population(rng)
+    cases = other + depth2 + rnd + (CAPTURE_CASES + subquery_capture_cases(pop) if ctx.pid == "C02" else [])
     layouts = make_layouts(rng, pop)
     inp = os.path.join(ctx.scratch, "query_in.json")
     with open(inp, "w") as fh:
